@@ -558,7 +558,8 @@ def run(tier, seed):
     _G.update(D=D, H=H, tier=tier, rnd=random.Random(seed), N=plain())
     rep.functions = ["pgns.decode_pgn_* (every definition)", "utils.decode_number", "utils.decode_int", "utils.decode_float",
                      "utils.decode_time", "utils.decode_date", "utils.decode_string_fix", "utils.decode_bit_lookup (kernel level)",
-                     "message.int_to_bytes (kernel level)", "message.NMEA2000Message/NMEA2000Field"]
+                     "message.int_to_bytes (kernel level)", "message.NMEA2000Message/NMEA2000Field",
+                     "decoder._call_decode_function (payload bytes -> integer, addressing; per-PGN function replaced by a recorder)"]
     rep.stubs = ["decode_bit_lookup on symbolic bits -> SymFlags(table, bits); the real loop is checked at kernel level for <= 8-bit arguments",
                  "int_to_bytes on symbolic bits -> SymBinary(bits); checked at kernel level for <= 32-bit arguments",
                  "bytes.decode in decode_string_fix -> opaque text over exactly those bytes (clean-up rule outside the claim)",
@@ -623,6 +624,7 @@ def run(tier, seed):
                                   {"kind": "number", "what": kind, "raw": wit, "def": where[0], "field": where[1]})
     rep.count("numeric_signatures", len(sigs))
     kernel_checks(rep, H, tier)
+    glue_check(rep, H, tier)
     for r_, n_ in outside.items():
         rep.outside.append("%s: %d" % (r_, n_))
     rep.coverage.update(programs=programs, disagreements_checked=disagreements, fields_checked=fields_checked,
@@ -958,6 +960,67 @@ def kernel_checks(rep, H, tier):
     datetime_kernel_checks(rep, H, tier)
 
 
+def glue_check(rep, H, tier):
+    """decoder._call_decode_function: the payload bytes of a frame / reassembled message (received last-byte-first) reach
+    the per-PGN function as the little-endian integer of the payload, every byte at 8 * its index, for every payload
+    length; the function's message is returned with the caller's addressing.  The per-PGN function is replaced by a
+    recorder here (the functions themselves are the subject of the definition-level runs above)."""
+    from datetime import datetime
+    R = H.R
+    lengths = [1, 2, 3, 5, 8] + ([9, 32, 223] if tier == "quick" else list(range(9, 224, 7)) + [223])
+    g = R.decoder.__dict__
+    name = "decode_pgn_127250"
+    saved = g.get(name)
+    try:
+        for L in lengths:
+            bs = [z3.BitVec("gb%d_%d" % (L, i), 8) for i in range(L)]            # payload bytes in wire order
+            src, dst, prio = z3.BitVec("gsrc", 8), z3.BitVec("gdst", 8), z3.BitVec("gprio", 3)
+            seen = []
+
+            def recorder(data_int):
+                seen.append(data_int)
+                return R.message.NMEA2000Message(PGN=127250, id="vesselHeading", description="x")
+            g[name] = recorder
+            ts = datetime(2021, 2, 3)
+
+            def h():
+                del seen[:]
+                dec = R.decoder.NMEA2000Decoder()
+                data = SymBytes([SymInt(z3.ZeroExt(1, b), 8) for b in reversed(bs)])       # as the front-ends hand it over: reversed
+                m = dec._call_decode_function(127250, SymInt(z3.ZeroExt(1, prio), 3), SymInt(z3.ZeroExt(1, src), 8), SymInt(z3.ZeroExt(1, dst), 8), ts, data, None, b"")
+                return m, list(seen)
+            try:
+                paths, ex = explore(h, max_paths=16)
+            except Unsupported as e:
+                rep.inconc("payload glue, %d bytes: %s" % (L, e))
+                continue
+            for pa in paths:
+                def wit(mm):
+                    pay = bytes(mm.eval(b, True).as_long() for b in bs) if mm is not None else bytes(L)
+                    return {"kind": "glue", "payload": pay.hex(), "src": mm.eval(src, True).as_long() if mm is not None else 1,
+                            "dst": mm.eval(dst, True).as_long() if mm is not None else 255, "prio": mm.eval(prio, True).as_long() if mm is not None else 2}
+                if pa.kind != "return" or pa.value[0] is None or len(pa.value[1]) != 1:
+                    st0, m0 = satisfiable(pa.cond())
+                    if st0 == "sat":
+                        rep.violation({"kind": "payload-glue", "n": L}, "%d-byte payload: _call_decode_function %s" % (L, "raised %r" % (pa.value,) if pa.kind != "return" else "returned nothing / called the per-PGN function %d times" % len(pa.value[1])), wit(m0))
+                    continue
+                m, (di,) = pa.value
+                want = z3.Concat(*reversed(bs)) if L > 1 else bs[0]
+                got = SymInt.lift(di)
+                w = max(got.w, 8 * L + 1)
+                claim = z3.And(got.ext(w) == z3.ZeroExt(w - 8 * L, want), eq_term(m.source, SymInt(z3.ZeroExt(1, src), 8)), eq_term(m.destination, SymInt(z3.ZeroExt(1, dst), 8)),
+                               eq_term(m.priority, SymInt(z3.ZeroExt(1, prio), 3)), z3.BoolVal(m.timestamp == ts and m.PGN == 127250))
+                st, mm = prove(claim, pa.pc, label="payload-glue/%d" % (1 if L <= 8 else 2))
+                if st == "sat":
+                    rep.violation({"kind": "payload-glue", "n": L}, "%d-byte payload: the per-PGN function does not receive the little-endian integer of the payload, or the addressing of the returned message differs" % L, wit(mm))
+                elif st == "unknown":
+                    rep.inconc("payload glue %d bytes undecided" % L)
+            rep.count("payload_glue_lengths", 1)
+    finally:
+        if saved is not None:
+            g[name] = saved
+
+
 def datetime_kernel_checks(rep, H, tier):
     """decode_time / decode_date on every integer and every binary64 argument: the definition level only ties a TIME /
     DATE value to `kernel(decode_number(...))`; here the kernel itself is compared with its specification
@@ -983,7 +1046,8 @@ def datetime_kernel_checks(rep, H, tier):
                 arg = SymInt(z3.ZeroExt(1, xv), ln) * res_
                 n_term = z3.fpToSBV(z3.RTZ(), arg.t, z3.BitVecSort(34))
                 base = []
-            lo, hi = (0, 86399) if fname == "decode_time" else (0, 65535)
+            lo, hi = (0, 86399) if fname == "decode_time" else (0, 65532)
+            hi_range = 86401 if fname == "decode_time" else 65532        # database RangeMax of every TIME / DATE field
             inside = [z3.BitVecVal(lo, 34) <= n_term, n_term <= z3.BitVecVal(hi, 34)]
             try:
                 paths, ex = explore(lambda: real[fname](arg), max_paths=64, assumptions=base)
@@ -1002,7 +1066,9 @@ def datetime_kernel_checks(rep, H, tier):
                     return {"kind": "dtkernel", "fn": fname, "arg": v, "argkind": kind}
                 pc = [c for c in pa.pc] + base + inside
                 if pa.kind != "return":
-                    st, m = satisfiable(z3.And(*pc))
+                    # must not fail anywhere inside the database range of the field type (TIME: 0..86401 s, which includes the
+                    # leap-second values whose time of day is outside the value claim below)
+                    st, m = satisfiable(z3.And(*([c for c in pa.pc] + base + [z3.BitVecVal(lo, 34) <= n_term, n_term <= z3.BitVecVal(hi_range, 34)])))
                     if st == "sat":
                         rep.violation({"kind": "datetime-kernel", "fn": fname}, "%s raises %r on an argument inside the field's domain" % (fname, pa.value), wit(m))
                     elif st == "unknown":
@@ -1071,6 +1137,22 @@ def replay(r):
         exp = raw.rstrip(b"\x00").decode(enc, errors="ignore") if enc == "utf-8" else raw.decode(enc, errors="ignore")
         bad = text is None or (text.rstrip("\x00") != exp.rstrip("\x00")) or (skip is not None and skip != 8 * region[0])
         return bad, "decode_string_%s region %s -> %r skip %r, expected %r skip %r" % (r["fn"], region.hex(), text, skip, exp, 8 * region[0])
+    if k == "glue":
+        from datetime import datetime
+        pay = bytes.fromhex(r["payload"])
+        seen = []
+        g = N.decoder.__dict__
+        saved = g["decode_pgn_127250"]
+        g["decode_pgn_127250"] = lambda di: seen.append(di) or N.message.NMEA2000Message(PGN=127250, id="vesselHeading", description="x")
+        try:
+            try:
+                m = N.decoder.NMEA2000Decoder()._call_decode_function(127250, r["prio"], r["src"], r["dst"], datetime(2021, 2, 3), pay[::-1], None, b"")
+            except Exception as e:
+                return True, "_call_decode_function raised %r" % (e,)
+        finally:
+            g["decode_pgn_127250"] = saved
+        ok = m is not None and seen == [int.from_bytes(pay, "little")] and (m.source, m.destination, m.priority) == (r["src"], r["dst"], r["prio"])
+        return not ok, "payload %s: per-PGN function received %r, message addressing %r" % (pay.hex(), [hex(x) for x in seen], None if m is None else (m.source, m.destination, m.priority))
     if k == "dtkernel":
         import datetime as _dtm
         import math
